@@ -1,5 +1,6 @@
 import Sentinel.Lemmas.EntryLedger
 import Sentinel.Lemmas.EntryPool
+import Sentinel.Lemmas.EntrySchedule
 /-!
 # C01 — Entry/Exit accounting is conserved and correctly attributed
 (property theorems only; the simulation lemmas live in `Sentinel/Lemmas/Entry.lean`)
@@ -267,6 +268,43 @@ theorem gauge_zero_when_idle (fix : Bool) (t0 : Nat) (ops : List TOp) (h0 : 0 < 
   simp only [Option.some.injEq] at hg
   rw [← hg, hga]
   exact gauge_zero_idle _ k idle
+
+/-! ## (2b) many goroutines, at the granularity of API calls
+
+Any interleaving of the calls of several goroutines is itself a history, so (1) and (2) hold for it.  In addition the
+*account* does not depend on the interleaving: if two histories differ only by the order of adjacent calls addressed to
+different entries (`Sched`), every counter of every window, every gauge, every entry's context and every `Entry` outcome is
+the same; only the peak-concurrency samples may differ.  (This is what allows the check's multi-goroutine soak to compare the
+final state with a sequential run.  Interleavings *inside* a call — the atomics of the bucket array — are C09's / C15's.) -/
+theorem schedule_independent (fix : Bool) (t0 : Nat) (ops1 ops2 : List TOp) (h0 : 0 < t0)
+    (hm1 : Mono t0 ops1) (hm2 : Mono t0 ops2) (hs : Sched ops1.reverse ops2.reverse)
+    (k : Key) (Iv now : Nat) (hnow1 : lastT t0 ops1.reverse ≤ now) (hnow2 : lastT t0 ops2.reverse ≤ now) (hIv : Iv ≤ 10000) :
+    (obsWindow (run fix t0 ops1) k Iv now).map cnt = (obsWindow (run fix t0 ops2) k Iv now).map cnt ∧
+    obsConc (run fix t0 ops1) k = obsConc (run fix t0 ops2) k ∧
+    (∀ id, obsCtx (run fix t0 ops1) id = obsCtx (run fix t0 ops2) id ∧
+           obsEntered (run fix t0 ops1) id = obsEntered (run fix t0 ops2) id) := by
+  obtain ⟨hi, hg, he, hn⟩ := sched_invariant fix hs
+  refine ⟨?_, ?_, ?_⟩
+  · rw [window_refines_ledger fix t0 ops1 h0 hm1 k Iv now hnow1 hIv,
+        window_refines_ledger fix t0 ops2 h0 hm2 k Iv now hnow2 hIv]
+    cases k with
+    | none => simp only [ledWindow, if_true, Option.map, refW_eq_tally]; rw [he none]
+    | some r =>
+      simp only [ledWindow, hn r]
+      split_ifs
+      · simp only [Option.map, refW_eq_tally]; rw [he (some r)]
+      · rfl
+  · rw [conc_refines_ledger fix t0 ops1 h0 hm1 k, conc_refines_ledger fix t0 ops2 h0 hm2 k]
+    cases k with
+    | none => simp only [ledConc, hg none]
+    | some r => simp only [ledConc, hn r, hg (some r)]
+  · intro id
+    obtain ⟨a1, b1⟩ := ctx_refines_ledger fix t0 ops1 h0 hm1 id
+    obtain ⟨a2, b2⟩ := ctx_refines_ledger fix t0 ops2 h0 hm2 id
+    rw [a1, a2, b1, b2]
+    unfold ledCtx ledEntered
+    rw [hi id]
+    exact ⟨rfl, rfl⟩
 
 /-! ## (3) the statement for the code as it is, and where it fails -/
 
